@@ -628,6 +628,29 @@ impl DeriveShape for Expression {
                                 Shape::Boolean(def.pos.clone())
                             }
                         }
+                        // Concatenating two lists yields the elements of both
+                        // operands, so the result carries the element types of
+                        // both sides rather than those of one operand only.
+                        BinaryExprType::Add => {
+                            let narrowed = left_shape.narrow(&right_shape, symbol_table);
+                            match (&narrowed, &left_shape, &right_shape) {
+                                (
+                                    Shape::List(_),
+                                    Shape::List(left_list),
+                                    Shape::List(NarrowedShape {
+                                        types: NarrowingShape::Narrowed(right_types),
+                                        ..
+                                    }),
+                                ) if matches!(left_list.types, NarrowingShape::Narrowed(_)) => {
+                                    let mut merged = left_list.clone();
+                                    for t in right_types.iter() {
+                                        merged.merge_in_shape(t.clone(), symbol_table);
+                                    }
+                                    Shape::List(merged)
+                                }
+                                _ => narrowed,
+                            }
+                        }
                         // Math operators narrow types
                         _ => left_shape.narrow(&right_shape, symbol_table),
                     }
